@@ -53,7 +53,6 @@ class ConverterTask(Task):
                 results = explore(r, run, inline={'utils.*'})
             except V.Unsupported as u:
                 out['error'] = f'utils.{self.fn}: outside the modelled subset: {u}'
-                from props.C18 import converter_fallback
                 out['results'].extend(converter_fallback(self.fn))
                 return out
             for pi, p in enumerate(results):
